@@ -569,6 +569,8 @@ def replay(ob):
     fam.append(("C chain in a tight cell, pbc TFF", cc, 1, 0.3))
     n2 = Atoms("N2", positions=[[0.6, 0.6, 12], [0.6, 0.6, 13.1]], cell=[1.2, 1.2, 25], pbc=[False, False, True])
     fam.append(("N2 in a narrow cell, pbc FFT", n2, 0, 0.3))
+    kh = Atoms("KH", positions=[[0, 5, 5], [0, 6.5, 5]], cell=[4.2, 12, 12], pbc=[True, False, False])
+    fam.append(("K-H units 4.2 A apart along a (K bonded to its own image: 4.2 - 2*2.03 = 0.14 <= 0.5), pbc TFF", kh, 1, 0.5))
     for ent in fam:
         name, at, want = ent[:3]
         kw = {"cluster_threshold": ent[3]} if len(ent) > 3 else {}
